@@ -14,7 +14,8 @@ PRIORS = ['id', 'affine', 'inplace', 'Prior', 'PriorArr']
 
 class Model:
     def __init__(self, kind='gauss', n_dim=2, K=8, seed=0, blob='none', prior='id',
-                 vectorized=False, record=True):
+                 vectorized=False, record=True, cells_lv=None):
+        self.cells_lv = cells_lv        # kind 'cells': level of each vertical strip (spec/CellWorld.tla)
         self.kind, self.n_dim, self.K, self.seed = kind, n_dim, K, seed
         self.blob, self.prior_mode, self.vectorized = blob, prior, vectorized
         self.record = record
@@ -49,6 +50,9 @@ class Model:
             d0 = abs(t[0] - self.wrapc)
             d0 = min(d0, 1 - d0)
             return float(np.exp(-(d0 ** 2 + np.sum((t[1:] - 0.5) ** 2)) / (2 * 0.07 ** 2)))
+        if k == 'cells':
+            c = min(int(np.floor(t[0] * len(self.cells_lv))), len(self.cells_lv) - 1)
+            return self.cells_lv[max(c, 0)] / float(self.K)
         if k == 'ring':
             r = np.sqrt(np.sum((t - 0.5) ** 2))
             return float(np.exp(-(r - 0.3) ** 2 / (2 * 0.04 ** 2)))
